@@ -11,6 +11,7 @@ CONSTANTS
  MaxServes = 2
  MaxApplies = 1
  Faults = TRUE
+ KeepHist = TRUE
 INVARIANT LogNoRepeats
 INVARIANT LogEndRecorded
 INVARIANT PerClientOrder
